@@ -300,14 +300,17 @@ class _ReadSourceGenerator:
             read_type += ".type"
             field_type = field_type.type
 
-        if issubclass(field_type, Char):
-            field_type = field_type.cs.uint8
-            lookup = "cls.cs.uint8"
-
         template = f"""
         _t = {lookup}
         r["{field._name}"] = type.__call__(_t, bit_reader.read({read_type}, {field.bits}))
         """
+
+        if issubclass(field_type, Char):
+            # A char unit is a storage unit of its own (it is not shared with neighbouring uint8 bit fields),
+            # the value is the plain integer the bit reader returns
+            template = f"""
+            r["{field._name}"] = bit_reader.read({lookup}, {field.bits})
+            """
 
         yield dedent(template)
 
